@@ -17,12 +17,13 @@ Lemma ascii_account_ok :
   end.
 Proof. vm_compute. reflexivity. Qed.
 
-(* a non-BMP character before the element: the range is one UTF-16 unit short and does not
-   cover the account any more *)
+(* a non-BMP character inside the element: columns are UTF-16 code units (before the repair of
+   the lexer's column counter they were runes, the range ended at 17, one unit short) *)
 Definition t_emoji := bs "2024-01-01 shop" ++ nl ++ bs "    expenses:" ++ hx "f09f9880" ++ bs "fun  1 USD" ++ nl.
-Lemma nonbmp_account_short :
+Lemma nonbmp_account_covered :
   match hover_of t_emoji 1 5 with
-  | Some (HAccount, r) => covers (doc_lines t_emoji) r (bs "expenses:" ++ hx "f09f9880" ++ bs "fun") = false /\ ec r = 17
+  | Some (HAccount, r) =>
+      range_ok (doc_lines t_emoji) r && covers (doc_lines t_emoji) r (bs "expenses:" ++ hx "f09f9880" ++ bs "fun") = true /\ ec r = 18
   | _ => False
   end.
 Proof. vm_compute. split; reflexivity. Qed.
@@ -36,11 +37,13 @@ Lemma payee_estimate_wrong :
   end.
 Proof. vm_compute. reflexivity. Qed.
 
-(* two adjacent transactions: folds overlap on the second header's line *)
+(* two adjacent transactions: each fold ends on its transaction's last line (before the repair of
+   the fold range the first ended on the second header's line and the second on the empty line
+   after the final newline: [(0, 2); (2, 5)], overlapping) *)
 Definition t_adjacent := bs "2024-01-01 a" ++ nl ++ bs "    a:b  1 USD" ++ nl ++ bs "2024-01-02 b" ++ nl ++ bs "    a:b  1 USD" ++ nl ++ bs "    c:d" ++ nl.
-Lemma folds_overlap :
+Lemma folds_adjacent :
   match ranges_of t_adjacent with
-  | Some (_, fs) => fs = [(0, 2); (2, 5)] /\ folds_laminar fs = false
+  | Some (_, fs) => fs = [(0, 1); (2, 4)] /\ folds_laminar fs = true
   | None => False
   end.
 Proof. vm_compute. split; reflexivity. Qed.
